@@ -16,6 +16,14 @@ def Blank (p : Str) : Prop := ∀ c ∈ p, c = ' ' ∨ c = '\t'
 def hasDotDot (s : Str) : Prop := (findDotDot s).isSome
 def allDigits (s : Str) : Prop := ∀ c ∈ s, isAsciiDigit c = true
 
+instance (p : Str) : Decidable (Blank p) := by unfold Blank; infer_instance
+instance (s : Str) : Decidable (hasDotDot s) := by unfold hasDotDot; infer_instance
+instance (s : Str) : Decidable (allDigits s) := by unfold allDigits; infer_instance
+
+/-- every colon of `v` is a clock colon: it is followed, inside `v`, by `[0-5][0-9]`, `mm` or `MM`
+(`clockAhead` is the look-ahead of the model's `sepOk`, see `sepOk_of_clockAhead`) -/
+def TimeLike (v : Str) : Prop := ∀ a b, v = a ++ ':' :: b → clockAhead b = true
+
 /-- the laid-out line  `p0 name p1 . unit p2 value p3 : p4 descr p5` -/
 def layout (f : Fields) (p0 p1 p2 p3 p4 p5 : Str) : Str :=
   p0 ++ f.name ++ p1 ++ '.' :: (f.unit ++ p2 ++ f.value ++ p3 ++ ':' :: (p4 ++ f.descr ++ p5))
@@ -30,7 +38,8 @@ structure Conf (sec : SecName) (f : Fields) : Prop where
   unit_first : f.unit.head? ≠ some '.'
   unit_last : f.unit.getLast? ≠ some '.'
   value_strip : strip f.value = f.value
-  value_nocolon : ∀ c ∈ f.value, c ≠ ':'
+  /-- no colon in the value, unless — in ~Parameter — every colon of the value is a clock colon -/
+  value_nocolon : (∀ c ∈ f.value, c ≠ ':') ∨ (sec = .parameter ∧ TimeLike f.value)
   value_nodd : sec = .curves → ¬ hasDotDot f.value
   descr_strip : strip f.descr = f.descr
   descr_nocolon : sec ≠ .parameter → ∀ c ∈ f.descr, c ≠ ':'
@@ -42,6 +51,18 @@ structure PadOK (sec : SecName) (f : Fields) (p0 p1 p2 p3 p4 p5 : Str) : Prop wh
   value_sep : f.value ≠ [] → p2 ≠ []
   /-- a single blank is the documented `1000 lbf` form -/
   digit_unit : f.unit ≠ [] → allDigits f.unit → f.value ≠ [] → 2 ≤ p2.length
+  /-- ~Parameter: a description containing a colon must be set off by a blank on both sides of the
+  delimiter colon -/
+  param_descr_colon : sec = .parameter → (∃ c ∈ f.descr, c = ':') → p3 ≠ [] ∧ p4 ≠ []
+  /-- ~Parameter, forced by the proof (defect R19): when the unit contains a colon, the delimiter colon
+  must pass the clock-time look-around -/
+  param_unit_colon : sec = .parameter → (∃ c ∈ f.unit, c = ':') →
+    sepOk ((p0 ++ f.name ++ p1 ++ '.' :: (f.unit ++ p2 ++ f.value ++ p3)).reverse)
+      (p4 ++ f.descr ++ p5) = true
+  /-- ~Parameter, forced by the proof: an all-digit unit before an empty value and a description
+  containing a colon needs two blanks before the delimiter colon (else `N.100 : d:e` gives unit `100 :`) -/
+  param_digit_unit : sec = .parameter → f.unit ≠ [] → allDigits f.unit → (∃ c ∈ f.descr, c = ':') →
+    2 ≤ p2.length + p3.length
 
 /-- **C04, sections other than ~Parameter**: parsing the laid-out line gives the fields back,
 whatever the padding. -/
@@ -77,6 +98,363 @@ theorem C04_main (sec : SecName) (hsec : sec ≠ .parameter) (f : Fields) (p0 p1
   rw [hline, key, strip_pad _ _ _ (sp b0) (sp b1), strip_pad _ _ _ (sp b2) (sp b3),
     strip_pad _ _ _ (sp b4) (sp b5), hc.name_strip, hc.value_strip, hc.descr_strip]
 
+/-- **C04, ~Parameter**: two patterns are tried (clock-time value first, then the default one); under
+the additional ~Parameter clauses of `PadOK` the first that matches gives the fields back. -/
+theorem C04_main_parameter (f : Fields) (p0 p1 p2 p3 p4 p5 : Str)
+    (hc : Conf .parameter f) (hp : PadOK .parameter f p0 p1 p2 p3 p4 p5) :
+    parseHeaderLine .parameter (layout f p0 p1 p2 p3 p4 p5) = some f := by
+  obtain ⟨b0, b1, b2, b3, b4, b5⟩ := hp.blanks
+  have sp : ∀ {p : Str}, Blank p → ∀ c ∈ p, isPySpace c = true :=
+    fun h c hc => IsBlank.space (h c hc)
+  have nd : ∀ {p : Str}, Blank p → ∀ c ∈ p, c ≠ '.' := fun h c hc => IsBlank.ne_dot (h c hc)
+  have nc : ∀ {p : Str}, Blank p → ∀ c ∈ p, c ≠ ':' := fun h c hc => IsBlank.ne_colon (h c hc)
+  have hline : layout f p0 p1 p2 p3 p4 p5 =
+      (p0 ++ f.name ++ p1) ++ '.' :: (f.unit ++ (p2 ++ f.value ++ p3) ++ ':' :: (p4 ++ f.descr ++ p5)) := by
+    simp [layout]
+  have hdc : (∃ c ∈ p4 ++ f.descr ++ p5, c = ':') → ∃ c ∈ f.descr, c = ':' := by
+    intro ⟨c, hcm, hce⟩
+    rcases List.mem_append.mp hcm with h | h
+    · rcases List.mem_append.mp h with h | h
+      · exact absurd hce (nc b4 c h)
+      · exact ⟨c, h, hce⟩
+    · exact absurd hce (nc b5 c h)
+  have key := parse_layout_param_ok (p0 ++ f.name ++ p1) f.unit (p2 ++ f.value ++ p3)
+    (p4 ++ f.descr ++ p5)
+    (by have := hc.name_ne; simp [this])
+    (forall_mem_append3 _ _ _ (nd b0) (fun c h => (hc.name_chars c h).1) (nd b1))
+    (forall_mem_append3 _ _ _ (nc b0) (fun c h => (hc.name_chars c h).2) (nc b1))
+    hc.unit_nosp hc.unit_last
+    (head?_pad (fun c => isPySpace c = true) _ _ _ (sp b2) (sp b3) hp.value_sep)
+    (by
+      rcases hc.value_nocolon with h | ⟨_, h⟩
+      · exact timeLikeB_of_nocolon _ (forall_mem_append3 _ _ _ (nc b2) h (nc b3))
+      · exact timeLikeB_append_right _ _
+          (timeLikeB_append_left _ _ (nc b2) (timeLikeB_of_split _ h)) (nc b3))
+    (fun hne hd => second_pad (fun c => isPySpace c = true) _ _ _ (sp b2) (sp b3)
+      (hp.digit_unit hne hd))
+    (by
+      intro hex
+      have := (hp.param_descr_colon rfl (hdc hex)).1
+      simp [this])
+    (by
+      intro hex hne hd
+      have := hp.param_digit_unit rfl hne hd (hdc hex)
+      simp only [List.length_append]; omega)
+    (by
+      rintro (hex | hex)
+      · obtain ⟨h3, h4⟩ := hp.param_descr_colon rfl (hdc hex)
+        have := sepOk_blank_pads ((p0 ++ f.name ++ p1) ++ '.' :: (f.unit ++ p2 ++ f.value)) p3 p4
+          (f.descr ++ p5) h3 h4 b3 b4
+        simpa [List.append_assoc] using this
+      · have := hp.param_unit_colon rfl hex
+        simpa [List.append_assoc] using this)
+  rw [hline, key, strip_pad _ _ _ (sp b0) (sp b1), strip_pad _ _ _ (sp b2) (sp b3),
+    strip_pad _ _ _ (sp b4) (sp b5), hc.name_strip, hc.value_strip, hc.descr_strip]
+
+/-- **C04, every section kind**. -/
+theorem C04_main_all (sec : SecName) (f : Fields) (p0 p1 p2 p3 p4 p5 : Str)
+    (hc : Conf sec f) (hp : PadOK sec f p0 p1 p2 p3 p4 p5) :
+    parseHeaderLine sec (layout f p0 p1 p2 p3 p4 p5) = some f := by
+  by_cases hsec : sec = .parameter
+  · subst hsec; exact C04_main_parameter f p0 p1 p2 p3 p4 p5 hc hp
+  · exact C04_main sec hsec f p0 p1 p2 p3 p4 p5 hc hp
+
+/-! ## Special forms -/
+
+/-- **Last colon** — outside ~Parameter the LAST colon of the line separates value from description:
+the text `v` between unit and that colon may itself contain colons (`12:30:15`).  `v` is empty or starts
+with white space (otherwise it is glued to the unit). -/
+theorem C04_last_colon (sec : SecName) (hsec : sec ≠ .parameter) (name unit v d : Str)
+    (hn_ne : name ≠ []) (hn : ∀ c ∈ name, c ≠ '.' ∧ c ≠ ':')
+    (hu : ∀ c ∈ unit, isPySpace c = false) (hulast : unit.getLast? ≠ some '.')
+    (hv : ∀ c, v.head? = some c → isPySpace c = true)
+    (hdig : unit ≠ [] → allDigits unit →
+      ∀ b1 v', v = b1 :: v' → ∀ c, v'.head? = some c → isPySpace c = true)
+    (hd : ∀ c ∈ d, c ≠ ':')
+    (hcurves : sec = .curves → unit.head? ≠ some '.' ∧ ¬ hasDotDot unit ∧ ¬ hasDotDot v) :
+    parseHeaderLine sec (name ++ '.' :: (unit ++ v ++ ':' :: d)) =
+      some ⟨strip name, unit, strip v, strip d⟩ := by
+  apply parse_layout_ok sec hsec name unit v d hn_ne (fun c h => (hn c h).1) (fun c h => (hn c h).2)
+    hu hulast hv hdig hd
+  intro hcv
+  obtain ⟨h1, h2, h3⟩ := hcurves hcv
+  exact ⟨h1, by simpa [hasDotDot] using h2, by simpa [hasDotDot] using h3⟩
+
+/-- **No period** — `NAME : VALUE` (no period before the first colon), any section: the first colon
+separates, there is neither unit nor description.  In ~Curves a ".." in the value must not be followed
+by a further colon. -/
+theorem C04_no_period (sec : SecName) (name value : Str)
+    (hn : ∀ c ∈ name, c ≠ '.' ∧ c ≠ ':')
+    (hcurves : sec = .curves → ¬ hasDotDot value ∨ ∀ c ∈ value, c ≠ ':') :
+    parseHeaderLine sec (name ++ ':' :: value) = some ⟨strip name, [], strip value, []⟩ := by
+  apply parse_missing_ok sec name value hn
+  intro hcv
+  rcases hcurves hcv with h | h
+  · exact Or.inl (by simpa [hasDotDot] using h)
+  · exact Or.inr h
+
+/-- **Numeric unit, single blank** — the documented `1000 lbf` form: digits, ONE white-space character,
+a non-empty run of non-space characters; the whole `digits␣suffix` is the unit.  Name, value, description
+and paddings as in `C04_main` (stated through `Conf`/`PadOK` of the record with the unit left empty). -/
+theorem C04_numeric_unit_single_blank (sec : SecName) (hsec : sec ≠ .parameter)
+    (name ds : Str) (b : Char) (sfx value descr p0 p1 p2 p3 p4 p5 : Str)
+    (hc : Conf sec ⟨name, [], value, descr⟩) (hp : PadOK sec ⟨name, [], value, descr⟩ p0 p1 p2 p3 p4 p5)
+    (hds : ds ≠ []) (hdd : allDigits ds) (hb : isPySpace b = true)
+    (hsfx_ne : sfx ≠ []) (hsfx : ∀ c ∈ sfx, isPySpace c = false)
+    (hsfx_last : sfx.getLast? ≠ some '.') (hsfx_dd : sec = .curves → ¬ hasDotDot sfx) :
+    parseHeaderLine sec (layout ⟨name, ds ++ b :: sfx, value, descr⟩ p0 p1 p2 p3 p4 p5) =
+      some ⟨name, ds ++ b :: sfx, value, descr⟩ := by
+  obtain ⟨b0, b1, b2, b3, b4, b5⟩ := hp.blanks
+  have sp : ∀ {p : Str}, Blank p → ∀ c ∈ p, isPySpace c = true :=
+    fun h c hc => IsBlank.space (h c hc)
+  have nd : ∀ {p : Str}, Blank p → ∀ c ∈ p, c ≠ '.' := fun h c hc => IsBlank.ne_dot (h c hc)
+  have nc : ∀ {p : Str}, Blank p → ∀ c ∈ p, c ≠ ':' := fun h c hc => IsBlank.ne_colon (h c hc)
+  have hline : layout ⟨name, ds ++ b :: sfx, value, descr⟩ p0 p1 p2 p3 p4 p5 =
+      (p0 ++ name ++ p1) ++ '.' :: ((ds ++ b :: sfx) ++ (p2 ++ value ++ p3) ++ ':' :: (p4 ++ descr ++ p5)) := by
+    simp [layout]
+  have key := parse_numeric_unit_ok sec hsec (p0 ++ name ++ p1) ds b sfx (p2 ++ value ++ p3)
+    (p4 ++ descr ++ p5)
+    (by have := hc.name_ne; simp only at this; simp [this])
+    (forall_mem_append3 _ _ _ (nd b0) (fun c h => (hc.name_chars c h).1) (nd b1))
+    (forall_mem_append3 _ _ _ (nc b0) (fun c h => (hc.name_chars c h).2) (nc b1))
+    hds hdd hb hsfx_ne hsfx hsfx_last
+    (head?_pad (fun c => isPySpace c = true) _ _ _ (sp b2) (sp b3) hp.value_sep)
+    (forall_mem_append3 _ _ _ (nc b4) (hc.descr_nocolon hsec) (nc b5))
+    (by
+      intro hcv
+      refine ⟨by simpa [hasDotDot] using hsfx_dd hcv, ?_⟩
+      apply findDotDot_pad _ _ _ (nd b2) (nd b3)
+      have := hc.value_nodd hcv
+      simpa [hasDotDot] using this)
+  have h1 := hc.name_strip
+  have h2 := hc.value_strip
+  have h3 := hc.descr_strip
+  simp only at h1 h2 h3
+  rw [hline, key, strip_pad _ _ _ (sp b0) (sp b1), strip_pad _ _ _ (sp b2) (sp b3),
+    strip_pad _ _ _ (sp b4) (sp b5), h1, h2, h3]
+
+/-- **Unit with a trailing period** — outside ~Parameter a unit written `unit.` loses the period
+(`postProcess` strips periods from a unit that ends with one).  In ~Curves the unit must be non-empty
+(otherwise the line reads `NAME..`). -/
+theorem C04_unit_trailing_dot (sec : SecName) (hsec : sec ≠ .parameter) (f : Fields)
+    (p0 p1 p2 p3 p4 p5 : Str) (hc : Conf sec f) (hp : PadOK sec f p0 p1 p2 p3 p4 p5)
+    (hcv : sec = .curves → f.unit ≠ []) :
+    parseHeaderLine sec (layout ⟨f.name, f.unit ++ ['.'], f.value, f.descr⟩ p0 p1 p2 p3 p4 p5) =
+      some f := by
+  obtain ⟨b0, b1, b2, b3, b4, b5⟩ := hp.blanks
+  have sp : ∀ {p : Str}, Blank p → ∀ c ∈ p, isPySpace c = true :=
+    fun h c hc => IsBlank.space (h c hc)
+  have nd : ∀ {p : Str}, Blank p → ∀ c ∈ p, c ≠ '.' := fun h c hc => IsBlank.ne_dot (h c hc)
+  have nc : ∀ {p : Str}, Blank p → ∀ c ∈ p, c ≠ ':' := fun h c hc => IsBlank.ne_colon (h c hc)
+  have hline : layout ⟨f.name, f.unit ++ ['.'], f.value, f.descr⟩ p0 p1 p2 p3 p4 p5 =
+      (p0 ++ f.name ++ p1) ++
+        '.' :: ((f.unit ++ ['.']) ++ (p2 ++ f.value ++ p3) ++ ':' :: (p4 ++ f.descr ++ p5)) := by
+    simp [layout]
+  have key := parse_trailing_dot_ok sec hsec (p0 ++ f.name ++ p1) f.unit (p2 ++ f.value ++ p3)
+    (p4 ++ f.descr ++ p5)
+    (by have := hc.name_ne; simp [this])
+    (forall_mem_append3 _ _ _ (nd b0) (fun c h => (hc.name_chars c h).1) (nd b1))
+    (forall_mem_append3 _ _ _ (nc b0) (fun c h => (hc.name_chars c h).2) (nc b1))
+    hc.unit_nosp hc.unit_first hc.unit_last
+    (head?_pad (fun c => isPySpace c = true) _ _ _ (sp b2) (sp b3) hp.value_sep)
+    (forall_mem_append3 _ _ _ (nc b4) (hc.descr_nocolon hsec) (nc b5))
+    (by
+      intro h
+      refine ⟨hcv h, ?_, ?_⟩
+      · have := hc.unit_nodd
+        simpa [hasDotDot] using this
+      · apply findDotDot_pad _ _ _ (nd b2) (nd b3)
+        have := hc.value_nodd h
+        simpa [hasDotDot] using this)
+  rw [hline, key, strip_pad _ _ _ (sp b0) (sp b1), strip_pad _ _ _ (sp b2) (sp b3),
+    strip_pad _ _ _ (sp b4) (sp b5), hc.name_strip, hc.value_strip, hc.descr_strip]
+
+/-- **Clock times in ~Parameter** — `date HH:MM:SS` (minutes and seconds below 60, `date` without colon)
+is `TimeLike`, so by `C04_main_parameter` such a value is kept whole, and the description may contain
+colons (see the example at the end of the file). -/
+theorem C04_timeLike_hms (date : Str) (h1 h2 m1 m2 s1 s2 : Char) (hdate : ∀ c ∈ date, c ≠ ':')
+    (hh1 : isAsciiDigit h1 = true) (hh2 : isAsciiDigit h2 = true)
+    (hm1 : ('0' ≤ m1 && m1 ≤ '5') = true) (hm2 : isAsciiDigit m2 = true)
+    (hs1 : ('0' ≤ s1 && s1 ≤ '5') = true) (hs2 : isAsciiDigit s2 = true) :
+    TimeLike (date ++ [h1, h2, ':', m1, m2, ':', s1, s2]) :=
+  fun a b h => timeLikeB_split _ a b
+    (timeLikeB_append_left _ _ hdate (timeLikeB_hms h1 h2 m1 m2 s1 s2 hh1 hh2 hm1 hm2 hs1 hs2)) h
+
+/-- a value without colon is `TimeLike` -/
+theorem C04_timeLike_of_nocolon (v : Str) (h : ∀ c ∈ v, c ≠ ':') : TimeLike v :=
+  fun a b hv => absurd rfl (h ':' (by rw [hv]; simp))
+
+/-! ## Counter-examples: every clause of `PadOK` is needed -/
+
+/-- `value_sep`: without a blank after the unit the value is glued to it (`A.M1:d`) -/
+theorem C04_counterexample_value_glued :
+    parseHeaderLine .well (layout ⟨"A".toList, "M".toList, "1".toList, "d".toList⟩ [] [] [] [] [] []) =
+      some ⟨"A".toList, "M1".toList, [], "d".toList⟩ := by decide
+
+/-- `digit_unit`: an all-digit unit followed by a single blank swallows the value (`A.100 5:d`), this is
+the `1000 lbf` form -/
+theorem C04_counterexample_digit_unit_single_blank :
+    parseHeaderLine .well
+        (layout ⟨"A".toList, "100".toList, "5".toList, "d".toList⟩ [] [] [' '] [] [] []) =
+      some ⟨"A".toList, "100 5".toList, [], "d".toList⟩ := by decide
+
+/-- `param_descr_colon`: in ~Parameter a description with a colon, not set off by blanks, after a
+clock-like delimiter: `A.M x 12:30 y: z` splits at the later colon -/
+theorem C04_counterexample_param_descr_colon :
+    parseHeaderLine .parameter
+        (layout ⟨"A".toList, "M".toList, "x 12".toList, "30 y: z".toList⟩ [] [] [' '] [] [] []) =
+      some ⟨"A".toList, "M".toList, "x 12:30 y".toList, "z".toList⟩ := by decide
+
+/-- `param_unit_colon` — the known defect R19: the clock-time look-behind rejects the real delimiter and
+the unit backtracks onto its own interior colon -/
+theorem C04_counterexample_param_unit_colon :
+    parseHeaderLine .parameter "Q.U:S x 12: d".toList =
+      some ⟨"Q".toList, "U".toList, [], "S x 12: d".toList⟩ := by decide
+
+/-- the R19 line is the layout of a conformant record satisfying every other clause of `PadOK` -/
+theorem C04_counterexample_param_unit_colon_layout :
+    "Q.U:S x 12: d".toList =
+      layout ⟨"Q".toList, "U:S".toList, "x 12".toList, "d".toList⟩ [] [] [' '] [] [' '] [] := by decide
+
+/-- the R19 record is conformant -/
+theorem C04_counterexample_param_unit_colon_conf :
+    Conf .parameter ⟨"Q".toList, "U:S".toList, "x 12".toList, "d".toList⟩ :=
+  ⟨by decide, by decide, by decide, by decide, by decide, by decide, by decide, by decide,
+    Or.inl (by decide), fun h => by decide, by decide, fun h => absurd rfl h⟩
+
+/-- `param_digit_unit`: in ~Parameter an all-digit unit, an empty value, one blank and a description
+with a colon: `N.100 : d:e` gives unit `100 :` -/
+theorem C04_counterexample_param_digit_unit :
+    parseHeaderLine .parameter
+        (layout ⟨"N".toList, "100".toList, [], "d:e".toList⟩ [] [] [] [' '] [' '] []) =
+      some ⟨"N".toList, "100 :".toList, "d".toList, "e".toList⟩ := by decide
+
+/-- the record of `C04_counterexample_param_digit_unit` is conformant, and its paddings satisfy
+`param_descr_colon` (a blank on both sides of the delimiter colon) -/
+theorem C04_counterexample_param_digit_unit_conf :
+    Conf .parameter ⟨"N".toList, "100".toList, [], "d:e".toList⟩ :=
+  ⟨by decide, by decide, by decide, by decide, by decide, by decide, by decide, by decide,
+    Or.inl (by decide), fun h => by decide, by decide, fun h => absurd rfl h⟩
+
+/-- `Conf.value_nodd`: in ~Curves a ".." in the value before the delimiter colon moves the name -/
+theorem C04_counterexample_curves_value_dotdot :
+    parseHeaderLine .curves
+        (layout ⟨"N".toList, "M".toList, "1..2".toList, "d".toList⟩ [] [] [' ', ' '] [' '] [' '] []) =
+      some ⟨"N.M  1.".toList, "2".toList, [], "d".toList⟩ := by decide
+
+/-- `C04_no_period`, ~Curves side condition: `A:x..y:z` -/
+theorem C04_counterexample_no_period_curves :
+    parseHeaderLine .curves ("A".toList ++ ':' :: "x..y:z".toList) =
+      some ⟨"A:x.".toList, [], "y:z".toList, []⟩ := by decide
+
+/-! ## Non-vacuity -/
+
+/-- a conformant record for every section kind -/
+theorem C04_example_conf (sec : SecName) :
+    Conf sec ⟨"DEPT".toList, "M".toList, "1670.0".toList, "start depth".toList⟩ where
+  name_ne := by decide
+  name_strip := by decide
+  name_chars := by decide
+  unit_nosp := by decide
+  unit_nodd := by decide
+  unit_first := by decide
+  unit_last := by decide
+  value_strip := by decide
+  value_nocolon := Or.inl (by decide)
+  value_nodd := fun _ => by decide
+  descr_strip := by decide
+  descr_nocolon := fun _ => by decide
+
+/-- mixed blank/TAB paddings satisfying `PadOK` for every section kind -/
+theorem C04_example_pad (sec : SecName) :
+    PadOK sec ⟨"DEPT".toList, "M".toList, "1670.0".toList, "start depth".toList⟩
+      [' '] ['\t', ' '] [' ', '\t', ' '] [' ', ' '] ['\t'] [' '] where
+  blanks := by decide
+  value_sep := by decide
+  digit_unit := by decide
+  param_descr_colon := fun _ => by decide
+  param_unit_colon := fun _ => by decide
+  param_digit_unit := fun _ => by decide
+
+example (sec : SecName) :
+    parseHeaderLine sec " DEPT\t .M \t 1670.0  :\tstart depth ".toList =
+      some ⟨"DEPT".toList, "M".toList, "1670.0".toList, "start depth".toList⟩ :=
+  C04_main_all sec _ _ _ _ _ _ _ (C04_example_conf sec) (C04_example_pad sec)
+
+/-- ~Parameter: unit with a colon, description with a colon, delimiter set off by blanks -/
+example :
+    parseHeaderLine .parameter "RUN .h:m  12 : hh:mm of run".toList =
+      some ⟨"RUN".toList, "h:m".toList, "12".toList, "hh:mm of run".toList⟩ :=
+  C04_main_parameter ⟨"RUN".toList, "h:m".toList, "12".toList, "hh:mm of run".toList⟩
+    [] [' '] [' ', ' '] [' '] [' '] []
+    ⟨by decide, by decide, by decide, by decide, by decide, by decide, by decide, by decide,
+      Or.inl (by decide),
+      fun h => by decide, by decide, fun h => absurd rfl h⟩
+    ⟨by decide, by decide, by decide, fun _ _ => by decide, fun _ _ => by decide,
+      fun _ => by decide⟩
+
+/-- ~Parameter: a clock time with a date as value is kept whole, the description contains colons -/
+example :
+    parseHeaderLine .parameter "STRT .  13-JAN-2020 12:30:15 : start time (hh:mm:ss)".toList =
+      some ⟨"STRT".toList, [], "13-JAN-2020 12:30:15".toList, "start time (hh:mm:ss)".toList⟩ :=
+  C04_main_parameter
+    ⟨"STRT".toList, [], "13-JAN-2020 12:30:15".toList, "start time (hh:mm:ss)".toList⟩
+    [] [' '] [' ', ' '] [' '] [' '] []
+    ⟨by decide, by decide, by decide, by decide, by decide, by decide, by decide, by decide,
+      Or.inr ⟨rfl, C04_timeLike_hms "13-JAN-2020 ".toList '1' '2' '3' '0' '1' '5' (by decide) (by decide)
+        (by decide) (by decide) (by decide) (by decide) (by decide)⟩,
+      fun h => by decide, by decide, fun h => absurd rfl h⟩
+    ⟨by decide, by decide, by decide, fun _ _ => by decide, fun _ _ => by decide,
+      fun _ => by decide⟩
+
+/-- `unit.` -/
+example :
+    parseHeaderLine .curves " DEPT\t .M. \t 1670.0  :\tstart depth ".toList =
+      some ⟨"DEPT".toList, "M".toList, "1670.0".toList, "start depth".toList⟩ :=
+  C04_unit_trailing_dot .curves (by decide) _ _ _ _ _ _ _ (C04_example_conf .curves)
+    (C04_example_pad .curves) (fun _ => by decide)
+
+/-- the last colon separates: a clock time as value in ~Well -/
+example :
+    parseHeaderLine .well "TIME.  12:30:15 : clock".toList =
+      some ⟨"TIME".toList, [], "12:30:15".toList, "clock".toList⟩ :=
+  C04_last_colon .well (by decide) "TIME".toList [] "  12:30:15 ".toList " clock".toList
+    (by decide) (by decide) (by decide) (by decide) (by decide) (fun h => absurd rfl h) (by decide)
+    (by decide)
+
+example :
+    parseHeaderLine .other "NAME : some value".toList =
+      some ⟨"NAME".toList, [], "some value".toList, []⟩ :=
+  C04_no_period .other "NAME ".toList " some value".toList (by decide) (by decide)
+
+/-- `1000 lbf` -/
+example :
+    parseHeaderLine .well "WGT .1000 lbf  12.5 : weight".toList =
+      some ⟨"WGT".toList, "1000 lbf".toList, "12.5".toList, "weight".toList⟩ :=
+  C04_numeric_unit_single_blank .well (by decide) "WGT".toList "1000".toList ' ' "lbf".toList
+    "12.5".toList "weight".toList [] [' '] [' ', ' '] [' '] [' '] []
+    ⟨by decide, by decide, by decide, by decide, by decide, by decide, by decide, by decide,
+      Or.inl (by decide),
+      fun h => by decide, by decide, fun _ => by decide⟩
+    ⟨by decide, by decide, by decide, fun h => by decide, fun h => by decide, fun h => by decide⟩
+    (by decide) (by decide) (by decide) (by decide) (by decide) (by decide) (by decide)
+
 #print axioms C04_main
+#print axioms C04_main_parameter
+#print axioms C04_main_all
+#print axioms C04_last_colon
+#print axioms C04_no_period
+#print axioms C04_numeric_unit_single_blank
+#print axioms C04_unit_trailing_dot
+#print axioms C04_timeLike_hms
+#print axioms C04_counterexample_value_glued
+#print axioms C04_counterexample_digit_unit_single_blank
+#print axioms C04_counterexample_param_descr_colon
+#print axioms C04_counterexample_param_unit_colon
+#print axioms C04_counterexample_param_digit_unit
+#print axioms C04_counterexample_curves_value_dotdot
+#print axioms C04_counterexample_no_period_curves
+#print axioms C04_example_conf
+#print axioms C04_example_pad
 
 end Lasio
